@@ -35,6 +35,7 @@ fn rand_vfunc(t: &mut Tape, name: String) -> Func {
         args.push(Arg::Named(format!("p{k}"), ty));
     }
     Func {
+        more: vec![],
         sty: 0,
         vis: t.chance(2, 3),
         name,
@@ -123,7 +124,8 @@ pub fn gen_verdict_case_with(t: &mut Tape, force: Option<u64>) -> VerdictCase {
     // root with a table
     let mut counter = 0;
     let mut table: Vec<Func> = vec![];
-    let n0 = 1 + t.below(4);
+    // also an empty root table (`vftable {}`): the pointer is there all the same
+    let n0 = t.below(5);
     let mut next_slot = 0u64;
     for _ in 0..n0 {
         counter += 1;
@@ -170,9 +172,10 @@ pub fn gen_verdict_case_with(t: &mut Tape, force: Option<u64>) -> VerdictCase {
         }
         if last {
             // one mutation of the compatible prefix (or none)
-            let k = t.below(table.len() as u64) as usize;
+            let k = t.below(table.len().max(1) as u64) as usize;
             let drawn = t.below(10);
-            let choice = force.unwrap_or(drawn);
+            // nothing to mutate in an empty base table
+            let choice = if table.is_empty() { 0 } else { force.unwrap_or(drawn) };
             let b = own_block.as_mut().unwrap();
             match choice {
                 0 | 1 => {}
@@ -289,7 +292,7 @@ impl Prop for Verdict_ {
         "C06/verdict".into()
     }
     fn rule(&self) -> String {
-        "chains of depth 1-4 over a root with a 1-4 slot table (index gaps, all seven conventions, 0-3 parameters of integer, *const/*mut (also to the root type, two levels deep, to arrays) and small array types, optional return), optional second base with its own table, intermediate levels extending or inheriting the table; the last level's own block is the compatible prefix (+0-2 new slots) with at most one mutation: renamed slot, receiver flipped, one parameter's type changed in one place (leaf, pointer kind, array length, one level of indirection; any parameter), return type added/removed/changed the same way, calling convention changed to a different effective one, last base slot missing, two differing slots swapped; controls: no mutation, default convention spelled out. Oracle: Ok iff no mutation. Every case is non-trivial (depth >= 2, or >= 2 bases, or a mutation)".into()
+        "chains of depth 1-4 over a root with a 0-4 slot table (index gaps, all seven conventions, 0-3 parameters of integer, *const/*mut (also to the root type, two levels deep, to arrays) and small array types, optional return), optional second base with its own table, intermediate levels extending or inheriting the table; the last level's own block is the compatible prefix (+0-2 new slots) with at most one mutation: renamed slot, receiver flipped, one parameter's type changed in one place (leaf, pointer kind, array length, one level of indirection; any parameter), return type added/removed/changed the same way, calling convention changed to a different effective one, last base slot missing, two differing slots swapped; controls: no mutation, default convention spelled out. Oracle: Ok iff no mutation. Every case is non-trivial (depth >= 2, or >= 2 bases, or a mutation)".into()
     }
     fn gen(&self, t: &mut Tape) -> VerdictCase {
         gen_verdict_case(t)
